@@ -180,8 +180,28 @@ def variant_plan(rng: Rng, k: int) -> List[Dict[str, Any]]:
 REF_NOW = 1_600_000_000.0
 
 
+def _case_root(cfg: Dict[str, Any]) -> Tuple[str, Any]:
+    """The scratch directory of a case is a function of the case: the absolute paths handed to pydoctor are part of
+    its input (a program that hashes them behaves differently under another path), so a replay must see the very same
+    strings.  An exclusive lock serialises two processes that happen to run the same case at the same time."""
+    import fcntl
+    import hashlib
+    import json
+    import tempfile
+    key = hashlib.blake2b(json.dumps(cfg, sort_keys=True, default=str).encode(), digest_size=8).hexdigest()
+    base = '/dev/shm' if os.path.isdir('/dev/shm') and os.access('/dev/shm', os.W_OK) else tempfile.gettempdir()
+    lockdir = os.path.join(base, 'verif-c18-locks')
+    os.makedirs(lockdir, exist_ok=True)
+    lock = open(os.path.join(lockdir, key + '.lock'), 'w')
+    fcntl.flock(lock, fcntl.LOCK_EX)
+    root = os.path.join(base, f'verif-c18-{key}')
+    shutil.rmtree(root, ignore_errors=True)
+    os.makedirs(root)
+    return root, lock
+
+
 def run_case(cfg: Dict[str, Any], variants: List[Dict[str, Any]]) -> Dict[str, Any]:
-    root = pytruth.scratch_dir('verif-c18-')
+    root, lock = _case_root(cfg)
     try:
         paths = materialise(cfg, root)
         sde = cfg['epoch'] if cfg['buildtime_via'] == 'SOURCE_DATE_EPOCH' else None
@@ -249,6 +269,7 @@ def run_case(cfg: Dict[str, Any], variants: List[Dict[str, Any]]) -> Dict[str, A
                            'variants': variants, 'files_in_output': len(ref)}}
     finally:
         shutil.rmtree(root, ignore_errors=True)
+        lock.close()      # (the lock file stays: removing it would race with a process waiting on it)
 
 
 def _fileclass(path: str) -> str:
